@@ -679,3 +679,31 @@ def s02_10_result_slot_same_iteration(ctx, P):
                 bad = p
     ctx.check(key, 'R-dom', desc, bad is None, function=b.path, sites=[site(b, v) for v in valids], guards=[site(b, i) for i, _ in sorted(ok_edges)],
               witness=fmt_path(b, bad) if bad else None, missing='a (key, slot) iteration can store Valid without its own successful verification' if bad else None)
+
+
+def s02_11_every_key_tries_every_signature(ctx, P):
+    """Message::verify_nested answers `did this key sign?` for each key.  Necessary (C06: every signer the builder signed for
+    verifies; C13: the answer does not depend on the position of the key): the verification call sits inside BOTH a loop over all
+    signature indices 0..num_signatures and the loop over the (key, slot) pairs — the index does not come from the key's position."""
+    b = ctx.body("composed::message::types::Message::<'a>::verify_nested")
+    if b is None:
+        return
+    dom = b.dominators()
+    vs = [(i, t) for i, t in b.calls(r'verify_nested_explicit$')]
+    rng = [i for i, t in b.calls(r'Iterator::next$') if re.search(r'^std::ops::Range<usize>$', t['f'].get('selfty', '') or '')]
+    pair = [i for i, t in b.calls(r'Iterator::next$') if re.search(r'VerifyingKey.*VerificationResult', t['f'].get('selfty', '') or '')]
+    ok = bool(vs) and bool(rng) and bool(pair)
+    why = None
+    if ok:
+        lr = set().union(*[natural_loop(b, h, dom) for h in rng])
+        lp = set().union(*[natural_loop(b, h, dom) for h in pair])
+        for i, t in vs:
+            og = b.operand_origins(t['args'][1])
+            if i not in lr or i not in lp:
+                ok, why = False, 'the verification call at %s is not inside both loops' % site(b, i)
+            elif not has_origin(og, r'call:.*SignatureManyReader.*::num_signatures$') or has_origin(og, r'call:std::iter::Iterator::enumerate$'):
+                ok, why = False, 'the signature index at %s does not range over 0..num_signatures independently of the key position' % site(b, i)
+    else:
+        why = 'anchor: verification call / loop over signature indices / loop over (key, slot) pairs not found (%d/%d/%d)' % (len(vs), len(rng), len(pair))
+    ctx.check(P + ':S02-11:every-key-tries-every-signature', 'R-sib', 'Message::verify_nested tries every signature index for every key (nested loops; the index is not the key position)',
+              ok, function=b.path, sites=[site(b, i) for i, _ in vs], missing=why)
